@@ -81,8 +81,9 @@ class ChangeDetector(BaseDetector):
             A `pd.DataFrame` with a range index and one column:
             * ``"ilocs"`` - integer locations of the changepoints.
         """
+        # The sparse format only uses integer positions.
         is_changepoint = y_dense["labels"].diff().abs() > 0
-        changepoints = y_dense.index[is_changepoint]
+        changepoints = np.flatnonzero(is_changepoint.to_numpy())
         return ChangeDetector._format_sparse_output(changepoints)
 
     @staticmethod
